@@ -72,6 +72,27 @@ func SignalNotify(c chan<- os.Signal, sigs ...os.Signal) {
 	k.leave()
 }
 
+// SignalStop undoes SignalNotify for the channel: the node's signals get their
+// default action again (unless another channel is still registered for them).
+func SignalStop(c chan<- os.Signal) {
+	k := K
+	id := runtime.SimGoid()
+	k.enter()
+	g := k.gLocked(id)
+	if g.node != nil {
+		n := 0
+		for i := 0; i < len(g.node.sigs); i++ {
+			if g.node.sigs[i].c == c {
+				continue
+			}
+			g.node.sigs[n] = g.node.sigs[i]
+			n++
+		}
+		g.node.sigs = g.node.sigs[:n]
+	}
+	k.leave()
+}
+
 type sigReg struct {
 	c    chan<- os.Signal
 	sigs []os.Signal
@@ -220,7 +241,16 @@ type SDKConfig struct{}
 
 func (*SDKConfig) Client(ctx context.Context) *http.Client { return CloudClient() }
 
-func CloudSDKConfig(account string) (*SDKConfig, error) { return &SDKConfig{}, nil }
+// CloudStartupDelay is how long obtaining the cloud credentials takes (metadata
+// server round trips); set by a world before it starts the agent.
+var CloudStartupDelay time.Duration
+
+func CloudSDKConfig(account string) (*SDKConfig, error) {
+	if CloudStartupDelay > 0 {
+		time.Sleep(CloudStartupDelay)
+	}
+	return &SDKConfig{}, nil
+}
 
 func CloudDefaultClient(ctx context.Context, scopes ...string) (*http.Client, error) {
 	return CloudClient(), nil
